@@ -45,9 +45,14 @@ def c14_extra(tier, seed, harness, problems, stats, build_harness):
         if mism:
             problems.append({"kind": "sc-mismatch", "detail": "seed %d: %s" % (s, mism[0][:2500])})
         if not m:
-            if not races and not mism:
-                problems.append({"kind": "race", "detail": "seed %d: no summary from the race harness (exit %d): %s" % (
-                    s, p.returncode, (err or out)[-1500:])})
+            # the process died: a Go runtime `fatal error:` (concurrent map access is not recoverable) or a panic
+            # stands at the START of stderr; the last "fresh-name trial" line says where it was
+            fatal = [i for i, l in enumerate(err.splitlines()) if l.startswith(("fatal error:", "panic:"))]
+            where = [l for l in err.splitlines() if l.startswith("c14race: ")]
+            head = "\n".join(err.splitlines()[fatal[0]:fatal[0] + 30]) if fatal else ""
+            if fatal or (not races and not mism):
+                problems.append({"kind": "race", "detail": "seed %d: the race harness died without a summary (exit %d)%s: %s" % (
+                    s, p.returncode, (" in " + where[-1]) if where else "", head[:2500] or (err or out)[-1500:])})
             continue
         ev, mm, dup, nt = int(m.group(2)), int(m.group(3)), int(m.group(4)), int(m.group(5))
         fs["evaluations"] += ev
